@@ -184,6 +184,21 @@ pub fn generate(_ctx: &mut Ctx, seed: u64, i: usize, kind: &str, always_malforme
             src += &format!("{indent}{}</block>{}\n", lang.open, lang.close);
         }
     }
+    // one case in four: bystander blocks carrying OTHER synchronous rules, each violated, in the same file, and every
+    // validator enabled - the diagnostics of several validators for one file have to be merged, none may displace another
+    let mut enabled = vec![kind.to_string()];
+    if kind != "affects" && rng.chance(1, 4) {
+        let by: [(&str, &str, &str); 4] = [("keep-sorted", "asc", "b\na\n"), ("keep-unique", "", "a\na\n"), ("line-count", "<1", "x\n"), ("line-pattern", "^[a-z]+$", "A1\n")];
+        let first = rng.below(4);
+        for d in 0..1 + rng.below(2) {
+            let (rule, val, body) = by[(first + d) % 4];
+            if rule == kind { continue; }
+            if rule == "line-pattern" { patterns.push(val.to_string()); }
+            let sev = ["", "", " severity=\"warning\""][rng.below(3)];
+            src += &format!("{}<block {rule}=\"{val}\"{sev}>{}\n{body}{}</block>{}\n", lang.open, lang.close, lang.open, lang.close);
+        }
+        enabled = vec![];
+    }
     let path = format!("f.{}", lang.ext);
     let changes = if all_changed {
         Some([(path.clone(), (1..=src.lines().count() + 1).map(|l| (l, None)).collect())].into_iter().collect())
@@ -194,7 +209,7 @@ pub fn generate(_ctx: &mut Ctx, seed: u64, i: usize, kind: &str, always_malforme
         allow: vec![path],
         scan: true,
         changes,
-        enabled: vec![kind.to_string()],
+        enabled,
         patterns,
         asyncs,
         meta: json!({"gen": "val", "kind": kind, "i": i, "malformed": malformed, "nlines": nlines}),
